@@ -8,6 +8,8 @@ import (
 	"net/http"
 	"net/http/httptest"
 	"net/url"
+	"os"
+	"os/exec"
 	"strings"
 
 	"cuelabs.dev/go/oci/ociregistry"
@@ -359,6 +361,29 @@ func main() {
 				c.encoded = false
 			}
 		}
+	}
+
+	// (00) the same agreement between parsing and the predicates in a binary that links ociref and nothing
+	// else (so not every hash implementation is present): run as a helper process
+	if helper := os.Getenv("VERIF_HELPER"); helper != "" {
+		out, err := exec.Command(helper).CombinedOutput()
+		checked := false
+		for _, line := range strings.Split(string(out), "\n") {
+			switch {
+			case strings.HasPrefix(line, "MISMATCH "):
+				f := strings.SplitN(line, " ", 3)
+				run.Violation("parse-vs-predicates/minimal-binary/"+f[1], fmt.Sprintf("in a binary that links only ociref: %s - parsing and the validity predicates disagree about the %s", f[2], f[1]), map[string]any{"reference": f[2], "helper_output": string(out)})
+			case strings.HasPrefix(line, "CHECKED "):
+				checked = true
+				run.Count("minimal_binary_references_checked", 1)
+				run.SetExtra("minimal_binary", line)
+			}
+		}
+		if err != nil || !checked {
+			run.Inconclusive(fmt.Sprintf("the minimal-binary helper did not finish: %v: %.300s", err, out))
+		}
+	} else {
+		run.Inconclusive("no helper binary (VERIF_HELPER unset): run through ./run")
 	}
 
 	// (0) a cold router: the first requests this process ever routes name no valid repository at all.
